@@ -314,6 +314,96 @@ def pdom_height(ctx, prog):
     ctx.floor(R, n, 6)
 
 
+def data_edge_ends(ctx, prog):
+    R = "C02.DATA-edge-ends"
+    ctx.rule(R, "every ensure_height_requirement(oc, op, child, parent) call names the right ends: child = the node "
+                "being processed (self), parent = an element of self.parents, resp. a node created on the rhs of the "
+                "bind whose lhs-change node self is; adjust_heights starts with (original child, original parent)")
+    sites = prog.calls_to(r"AdjustHeightsHeap::ensure_height_requirement$")
+    n = 0
+    for t in sites:
+        F = t.fn
+        du = DefUse(F)
+        a = [expr(F, x, du) for x in t.args]
+        if len(a) < 5:
+            continue
+        n += 1
+        child, parent = show(a[3]), show(a[4])
+        ctx.site(R, F, "ensure_height_requirement(.., child=%s, parent=%s)" % (child[:60], parent[:80]))
+        root = q.strip_generics(F.root)
+        is_self = lambda e: e[0] == "call" and e[1].endswith("::packed") and len(e[2]) == 1 and (
+            e[2][0] == ("arg", 1) or (e[2][0][0] == "field" and e[2][0][1] == ("arg", 1) and "self" in str(e[2][0][2][-1])))
+        if root == q.strip_generics(q.AHH + "adjust_heights"):
+            good = a[3] == a[1] and a[4] == a[2] and a[3] != a[4]
+            want = "(original_child, original_parent)"
+        elif root == q.strip_generics(q.NODE_IMPL + "ensure_parent_height_requirements"):
+            good = is_self(a[3]) and mentions(a[4], lambda x: x[0] == "field" and str(x[2][-1]).endswith("parents")) and \
+                not mentions(a[4], lambda x: x[0] == "field" and "created_on_rhs" in str(x[2][-1]))
+            want = "(self, element of self.parents)"
+        elif root == q.strip_generics(q.NODE_IMPL + "adjust_heights_bind_lhs_change"):
+            good = is_self(a[3]) and mentions(a[4], lambda x: x[0] == "field" and "all_nodes_created_on_rhs" in str(x[2][-1]))
+            want = "(self = the lhs-change node, node created on the bind's rhs)"
+        else:
+            ctx.fail(R, "site:" + F.short, "ensure_height_requirement is called from an unlisted function", fn=F, span=t.span,
+                     kind="anchor")
+            continue
+        if good:
+            ctx.ok(R, "ends:" + q.short_path(root))
+        else:
+            ctx.fail(R, "ends:" + q.short_path(root), "the edge checked is (child=%s, parent=%s), specified %s: nodes are "
+                     "raised relative to the wrong node, so a node created in a bind can end up at or below the "
+                     "bind's lhs-change node" % (child[:70], parent[:70], want), fn=F, span=t.span)
+    ctx.floor(R, n, 3)
+
+
+data_edge_ends.rule_id = "C02.DATA-edge-ends"
+
+
+LENGTH_PRESERVING = ("::iter", "::iter_mut", "::into_iter", "::borrow", "::borrow_mut", "::deref", "::deref_mut",
+                     "::as_slice", "::as_ref", "::enumerate", "::map", "::by_ref", "::cloned", "::copied", "::rev")
+
+
+def guard_every_rhs_node(ctx, prog, R="C02.GUARD-every-rhs-node"):
+    ctx.rule(R, "adjust_heights_bind_lhs_change visits EVERY node created on the bind's rhs: the walk over "
+                "all_nodes_created_on_rhs uses no truncating adaptor (map_while / take_while / take / skip / step_by / "
+                "find), and in every iteration the only ways past ensure_height_requirement are a dead weak entry or "
+                "an unnecessary node")
+    from .loops import elem_loops, uncovered_iteration
+    from .expr import walk
+    root = ctx.need_fn(R, q.NODE_IMPL + "adjust_heights_bind_lhs_change")
+    if root is None:
+        return
+    found = False
+    for F in prog.with_closures(root):
+        sinks = {t.bb for t in q.calls_in(F, "AdjustHeightsHeap::ensure_height_requirement")}
+        if not sinks:
+            continue
+        du = DefUse(F)
+        for L in elem_loops(F, du):
+            src = expr(F, L.advance_call.args[0], du)
+            if not mentions(src, lambda x: x[0] == "field" and "all_nodes_created_on_rhs" in str(x[2][-1])):
+                continue
+            found = True
+            bad = sorted({x[1].rsplit("::", 1)[-1] for x in walk(src) if x[0] == "call" and not x[1].endswith(LENGTH_PRESERVING)
+                          and not (x[1].endswith("::filter_map") and "upgrade" in show(x))})
+            ctx.site(R, F, "loop over %s" % show(src)[:100])
+            p = uncovered_iteration(F, L, sinks, {"Weak::upgrade": 0, "ErasedNode>::is_necessary": 0}, du)
+            if bad:
+                ctx.fail(R, "walk", "the walk over all_nodes_created_on_rhs goes through %s, which can end before the "
+                         "last element: live rhs nodes after a dropped one are not raised above the lhs-change node"
+                         % ", ".join(bad), fn=F, span=L.advance_call.span)
+            elif p is not None:
+                ctx.fail(R, "walk", "an iteration can skip ensure_height_requirement for a live, necessary rhs node",
+                         fn=F, path=q.fmt_path(F, p))
+            else:
+                ctx.ok(R, "walk")
+    if not found:
+        ctx.missing(R, "loop over all_nodes_created_on_rhs in adjust_heights_bind_lhs_change")
+
+
+guard_every_rhs_node.rule_id = "C02.GUARD-every-rhs-node"
+
+
 def ensure_raise(ctx, prog):
     R = "C02.PDOM-raise"
     ctx.rule(R, "ensure_height_requirement raises the parent to child.height + 1 on EVERY violated edge "
@@ -454,4 +544,4 @@ def dtab_scope(ctx, prog):
 
 dtab_scope.rule_id = "C02.DTAB-scope"
 
-RULES = [guard_bypass, wmc_link, pdom_height, ensure_raise, dtab_can_recompute, dtab_scope]
+RULES = [guard_bypass, wmc_link, pdom_height, ensure_raise, dtab_can_recompute, dtab_scope, data_edge_ends, guard_every_rhs_node]
